@@ -42,6 +42,7 @@ struct url_handler {
 	const char *request_target;
 
 	int (*create)(struct http_connection *connection);
+	void (*destroy)(struct http_connection *connection);
 	int (*on_header_field)(http_parser *parser, const char *at, size_t length);
 	int (*on_header_value)(http_parser *parser, const char *at, size_t length);
 	int (*on_headers_complete)(http_parser *parser);
